@@ -12,10 +12,12 @@ Local Open Scope string_scope.
 Lemma generated_c12_obligation : c12_obligation stages = true.
 Proof. vm_compute. reflexivity. Qed.
 
-(* the charge guard, the parameter lookup and the structure checks are among the
+(* the charge guard, the "no atom received parameters" guard (raise_if_matched_atoms,
+   /repo 7917ee7), the parameter lookup and the structure checks are among the
    stages in front of the writer *)
 Lemma generated_guard_before_writer :
   all_before "raise_if_charge_err" "print_pqr" stages = true
+  /\ all_before "raise_if_matched_atoms" "print_pqr" stages = true
   /\ all_before "apply_force_field" "print_pqr" stages = true
   /\ all_before "is_repairable" "print_pqr" stages = true
   /\ all_before "check_files" "print_pqr" stages = true
